@@ -116,6 +116,10 @@ def run(ctx):
     try:
         text = tx.main(common.REPO)
         ctx.regen(tx.TARGET, text)
+        # the kept-count rule of CompressConfig (Gen/Trunc.v, C05's translator, used read-only by the scale theorems)
+        import trunc as txtrunc
+        ttext = txtrunc.main(common.REPO)
+        ctx.regen(txtrunc.TARGET, ttext[0] if isinstance(ttext, tuple) else ttext)
         gen_ok = True
     except Exception as e:
         tx_err = repr(e)
@@ -126,7 +130,7 @@ def run(ctx):
     gen_compiles = False
     if gen_ok:
         gen_compiles, glog = ctx.coq_make(["Gen/CanoSched.vo", "Model/Cano.vo"])
-        ok_build, log = ctx.coq_make(["Proofs/CanoProofs.vo", "Proofs/CanoGSProofs.vo"]) if gen_compiles else (False, glog)
+        ok_build, log = ctx.coq_make(["Proofs/CanoProofs.vo", "Proofs/CanoGSProofs.vo", "Proofs/CanoScaleProofs.vo"]) if gen_compiles else (False, glog)
     if ok_build:
         ok_props, log = ctx.props("Props/C04.v")
     else:
@@ -140,7 +144,7 @@ def run(ctx):
     for i, sp in enumerate(specs):
         shards[i % nshard].append([i, sp])
     tmpd = tempfile.mkdtemp(prefix="c04_")
-    results = ctx.impl_par("c04_run.py", [{"specs": s, "out": os.path.join(tmpd, "run_%d.json" % i), "label_budget": 25 if quick else 60}
+    results = ctx.impl_par("c04_run.py", [{"specs": s, "out": os.path.join(tmpd, "run_%d.json" % i), "label_budget": 25 if quick else 60, "scale_every": 1}
                                           for i, s in enumerate(shards)],
                            timeout=160 if quick else 1300, par=nshard)
     results = [(rc, load_file(res), out) for rc, res, out in results]
@@ -171,6 +175,8 @@ def run(ctx):
     for _ in range(24 if quick else 400):
         vspecs.append({"seed": ctx.rng.randrange(1, 2 ** 31), "nsite": ctx.rng.randint(2, 4 if quick else 5), "qn": ctx.rng.choice([1, 2]),
                        "kind": "mps", "recipe": ctx.rng.choice(["random", "add", "product"]), "complex": ctx.rng.random() < 0.5, "m": 3})
+        if len(vspecs) % 2 == 0:       # every second case with the norms of state and operator at extreme scales
+            vspecs[-1]["scale"] = [ctx.rng.choice([1e-30, 1e-12, 1e-9, 1e-6, 1e6, 1e12, 1e30]), ctx.rng.choice([1e-6, 1.0, 1e6])]
     # hard cases: zero-percent sweeps from the start, start guess of bond dimension 1 or 2, 8..10 sites.
     # demanded: spin chain (no symmetry) with M = largest exact Schmidt rank, 1site and 2site (HEAD: 120/120 converge).
     # measured only: particle-conserving hopping chain, 2site, M = 2^(n/2) or M = largest Schmidt rank -- on HEAD about 2%
@@ -403,6 +409,8 @@ def run(ctx):
             "near_canonical_inputs (Gram defect 1e-9/1e-7/1e-6; ensure_* sweep vs untouched)": stats.get("near_canonical", {}),
             "untouched_sites_within_documented_tolerance": stats.get("untouched_within_documented_tolerance", 0),
             "compressed_sum_checks": stats.get("compressed_sum_checks", 0), "max_compressed_sum_relerr": stats.get("max_compressed_sum_err"),
+            "scale_stream (norm 1e-30..1e30 in tensors or prefactor; relative dense, Schmidt ranks, homogeneity)": {
+                "scaled_objects": stats.get("scale_objects", 0), "checks": stats.get("scale_checks", 0), "max_relerr": stats.get("max_scale_relerr")},
             "malformed_entry_calls": stats.get("malformed", 0), "oracle_ops": stats.get("ops", 0), "isometry_site_checks": stats.get("iso_sites", 0),
             "max_dense_relerr": stats.get("max_dense_err"), "max_isometry_dev": stats.get("max_iso_dev"),
             "max_scaled_isometry_dev_mpo": stats.get("max_iso_dev_scaled"),
